@@ -605,12 +605,24 @@ func nearbysCallback(c *Ctx) (fn *FuncInfo, lit *ast.FuncLit, objParam, cand typ
 }
 
 // rootedAt: the expression's base identifier is obj (o.Geo(), obj.Geo().Center() ...).
+// rootedBody: when set, rootedAt follows locals that are defined once in this body (selfGeo := obj.Geo()).
+var rootedBody ast.Node
+
 func rootedAt(info *types.Info, e ast.Expr, obj types.Object) bool {
-	for {
+	for depth := 0; depth < 12; depth++ {
 		e = ast.Unparen(e)
 		switch x := e.(type) {
 		case *ast.Ident:
-			return info.ObjectOf(x) == obj
+			if info.ObjectOf(x) == obj {
+				return true
+			}
+			if rootedBody != nil {
+				if v := valueOf(info, rootedBody, x); v != ast.Expr(x) {
+					e = v
+					continue
+				}
+			}
+			return false
 		case *ast.SelectorExpr:
 			e = x.X
 		case *ast.CallExpr:
@@ -619,6 +631,7 @@ func rootedAt(info *types.Info, e ast.Expr, obj types.Object) bool {
 			return false
 		}
 	}
+	return false
 }
 
 func distanceBetween(info *types.Info, e ast.Expr, a, b types.Object) bool {
@@ -671,6 +684,9 @@ func ruleRadiusOperands(c *Ctx) {
 	info := fn.Info()
 	meters := c.Field("internal/server", "roamSwitches", "meters")
 	fg := newFlowGraph(info, lit.Body)
+	// locals of the enclosing function that name an operand once (selfGeo := obj.Geo(), radius := roam.meters)
+	rootedBody = fn.Decl.Body
+	defer func() { rootedBody = nil }()
 	appends := fg.Find(func(n ast.Node) bool {
 		call, ok := n.(*ast.CallExpr)
 		if !ok {
@@ -700,10 +716,10 @@ func ruleRadiusOperands(c *Ctx) {
 			default:
 				continue
 			}
-			if selField(info, m) != meters {
+			if selField(info, valueOf(info, fn.Decl.Body, m)) != meters {
 				continue
 			}
-			if distanceBetween(info, valueOf(info, lit.Body, d), objParam, cand) {
+			if distanceBetween(info, valueOf(info, fn.Decl.Body, d), objParam, cand) {
 				okk = true
 			}
 		}
@@ -720,7 +736,7 @@ func ruleRadiusOperands(c *Ctx) {
 		}
 		if id, ok := kv.Key.(*ast.Ident); ok && id.Name == "meters" {
 			nm++
-			if distanceBetween(info, valueOf(info, lit.Body, kv.Value), objParam, cand) {
+			if distanceBetween(info, valueOf(info, fn.Decl.Body, kv.Value), objParam, cand) {
 				okm = true
 			}
 		}
